@@ -333,7 +333,14 @@ func writeOdd(st *store.Store, content []byte, s FileSpec, noSizes bool) (cid.Ci
 			}
 			total += p.size
 			tsz += p.tsz
-			_ = n.AddRawLink("", &format.Link{Cid: p.c, Size: p.tsz})
+			lsz := p.tsz
+			if p.c.Prefix().Codec == cid.DagProtobuf && r2.Next()%6 == 0 {
+				// Tsize is optional and nothing validates it: a writer that does
+				// not track cumulative sizes leaves 0. (Never on raw children,
+				// whose Tsize readers use as their length.)
+				lsz = 0
+			}
+			_ = n.AddRawLink("", &format.Link{Cid: p.c, Size: lsz})
 		}
 		b, _ := fsn.GetBytes()
 		// legal variations no importer produces: the Raw type on a node with
